@@ -1,4 +1,4 @@
-//! C19 monitor (not written yet).
-pub fn run(_ctx: &crate::ctx::Ctx, report: &mut vcore::Report) {
-    report.notes.push("stub".into());
+//! C19 – see taint.rs (shared engine with C09).
+pub fn run(ctx: &crate::ctx::Ctx, report: &mut vcore::Report) {
+    crate::taint::run(ctx, report, crate::taint::Mode::C19);
 }
